@@ -14,6 +14,8 @@ VERIF = os.path.dirname(os.path.dirname(os.path.abspath(__file__)))
 TRANSLATORS = {"C08": "extract/io_extract.py → Gen/IoDecisions.lean",
                "C09": "extract/sleep_extract.py → Gen/SleepDecisions.lean",
                "C19": "extract/ctx_extract.py → Gen/CtxAsm.lean",
+               "C03": "extract/wake_extract.py (wake loops: no exit but the count, count untouched)",
+               "C05": "extract/wake_extract.py", "C06": "extract/wake_extract.py", "C07": "extract/wake_extract.py", "C12": "extract/wake_extract.py",
                "C17": "extract/wq_extract.py (counter widths, wait-loop exits; fails closed)",
                "C16": "extract/ring_extract.py → harness argument → init note (selects RingW variant)"}
 
